@@ -140,7 +140,9 @@ inline void well_items(const Opm::Well& w, const Opm::SummaryState& st, Sweep& o
         const auto& ss = w.getSegments();
         o.I(K + "nseg", "seg.count:" + kind, (long long)ss.size());
         for (std::size_t i = 0; i < ss.size(); ++i) {
-            const auto& s = ss[i]; const std::string S = "S:" + w.name() + "#" + std::to_string(i) + "/";
+            // a segment is identified by its NUMBER; its storage position in WellSegments is representation (the deck path keeps
+            // branches consecutive, the restart path sorts by number) and is not part of the list
+            const auto& s = ss[i]; const std::string S = "S:" + w.name() + "#" + std::to_string(s.segmentNumber()) + "/";
             o.I(S + "number", "seg.number:" + kind, s.segmentNumber());
             o.I(S + "branch", "seg.branch:" + kind, s.branchNumber());
             o.I(S + "outlet", "seg.outlet:" + kind, s.outletSegment());
